@@ -15,6 +15,7 @@ import (
 	"fmt"
 	"math/rand"
 	"runtime"
+	"strings"
 	"sync"
 	"sync/atomic"
 	"time"
@@ -81,8 +82,10 @@ func runSenderStress(name string, seed int64, dur time.Duration, bw *bufio.Write
 			}()
 			var progress atomic.Int64
 			sdone := make(chan struct{})
+			var gid atomic.Int64
 			go func() {
 				defer close(sdone)
+				gid.Store(goroutineID())
 				for time.Now().Before(deadline) {
 					msg := make([]byte, 1+rng.Intn(int(window)))
 					if err := snd.Send(msg); err != nil {
@@ -106,13 +109,16 @@ func runSenderStress(name string, seed int64, dur time.Duration, bw *bufio.Write
 					continue
 				}
 				if time.Since(since) > 1500*time.Millisecond && len(credits) == 0 && onWire.Load() == credited.Load() {
-					// nothing in flight, the whole window is back, and the sender does not move
-					if snd.Window() > 0 {
+					// nothing in flight, the whole window is back, and the sender does not move. Under
+					// heavy load a goroutine may simply not have been scheduled: it only counts when the
+					// sender is parked in its select with no wake-up token waiting for it
+					if snd.Window() > 0 && !snd.TokenPending() && senderParked(gid.Load()) {
 						fail(501, int64(snd.Window()), cur)
+						cancel()
+						<-sdone
+						break loop
 					}
-					cancel()
-					<-sdone
-					break loop
+					since = time.Now()
 				}
 			}
 			close(credits)
@@ -125,4 +131,25 @@ func runSenderStress(name string, seed int64, dur time.Duration, bw *bufio.Write
 	}
 	fmt.Fprintf(bw, "X %s %s\n", name, status)
 	bw.Flush()
+}
+
+// senderParked: goroutine id is blocked in the select of (*defaultSender).send
+func senderParked(id int64) bool {
+	buf := make([]byte, 1<<20)
+	n := runtime.Stack(buf, true)
+	head := fmt.Sprintf("goroutine %d [select", id)
+	for _, g := range strings.Split(string(buf[:n]), "\n\n") {
+		if strings.HasPrefix(g, head) && strings.Contains(g, "(*defaultSender).send") {
+			return true
+		}
+	}
+	return false
+}
+
+func goroutineID() int64 {
+	buf := make([]byte, 64)
+	n := runtime.Stack(buf, false)
+	var id int64
+	fmt.Sscanf(string(buf[:n]), "goroutine %d ", &id)
+	return id
 }
